@@ -617,6 +617,16 @@ func (x *exec) sourceCase(id, kind, src string, viaLoad bool) {
 				fmt.Sprintf("load() of the input inside a limited context panicked: %s\n%s", r2.panicMsg, r2.stack), src)
 		}
 		c.Feature("load/"+r2.kind, 1)
+		// and the binary round trip: the compiled chunk is dumped, reloaded and run
+		if r2.kind != kHang {
+			c.Eval(1)
+			r3 := x.compileAndRun(s, "viadump", `local f = load(SRC, "=loaded") if not f then return "no chunk" end local g, e = load(string.dump(f), "=reloaded", "b") if g then return pcall(g) end return e`, srcLimits)
+			if r3.kind == kPanic {
+				c.Violation("panic", "source dump/load "+panicSig(r3.panicMsg, r3.stack),
+					fmt.Sprintf("load(string.dump(f)) of the input's chunk, or running it, panicked inside a limited context: %s\n%s", r3.panicMsg, r3.stack), src)
+			}
+			c.Feature("dumpload/"+r3.kind, 1)
+		}
 	}
 	if res.kind != kHang {
 		x.closeSess(s)
